@@ -32,11 +32,11 @@ CLAIMED.update({
    technique="custom static analysis over rustc HIR: dominance of rejecting comparisons over effects, write-shape matching, who-may-write rule for lower_k",
    ref="DESIGN.md §4 C05"),
  "C06": dict(category="other",
-   text=STRUCT_TXT % "registers never decrease (guarded writes, element-wise max merge, no other writer, no mutation through a reference), the candidate register value has the shape max(0, min(q+1, floor(1 - ln x / ln b))) and every item makes its draws over 0..m, reinit re-establishes the constructor state and the pruning bound, default() builds what new(default parameters) builds, and the sketcher's estimate and the parallel estimator reduce to the same normal form",
+   text=STRUCT_TXT % "registers never decrease (guarded writes, element-wise max merge, no other writer, no mutation through a reference), the candidate register value has the shape max(0, min(q+1, floor(1 - ln x / ln b))) and every item makes its m draws at the cumulated spacings Exp1/(a(m-t)) (equality of rational functions) after resetting the slot permutation, reinit re-establishes the constructor state and the pruning bound, default() builds what new(default parameters) builds, and the sketcher's estimate and the parallel estimator reduce to the same normal form",
    technique="custom static analysis over rustc HIR: guarded-write and writer rules, sibling normal-form comparison of the two estimators",
    ref="DESIGN.md §4 C06"),
  "C07": dict(category="other",
-   text=STRUCT_TXT % "get_jaccard_bounds has no panic edge other than an argument precondition (MIR panic-edge inventory); structural preconditions of the collision model on SetSketcher::sketch: guarded register writes of the candidate value of the stated shape, legitimate early exits and full draw range, sound pruning bound, per-item seed and permutation reset, default() consistent with new()",
+   text=STRUCT_TXT % "get_jaccard_bounds has no panic edge other than an argument precondition (MIR panic-edge inventory); structural preconditions of the collision model on SetSketcher::sketch: guarded register writes of the candidate value of the stated shape, legitimate early exits and full draw range, the spacing Exp1/(a(m-t)) of successive points (equality of rational functions), sound pruning bound, per-item seed and permutation reset, default() consistent with new()",
    technique="panic-edge inventory on rustc MIR with structural classification of precondition assertions",
    ref="DESIGN.md §4 C07"),
  "C09": dict(category="other",
@@ -72,7 +72,7 @@ CLAIMED.update({
    technique="custom static analysis over rustc HIR (guard matching, shape rules on resolved normal forms, loop-exit classification, RESET analysis, template matching)",
    ref="DESIGN.md §4 C03 / §8"),
  "C08": dict(category="other",
-   text="Decides ONLY structural preconditions anchored in the property's mechanisms; the statement itself is an expectation over hash randomness and is NOT decided (no static argument in reach can bound it). " + "Preconditions: item -> (value, bin) from a generator seeded by the item hash, a bin keeps the smallest value with its hash under an order-insensitive guard, densification copies (value, hash) pairs from populated bins into empty bins only with generators keyed by position/size/pass/constants, bookkeeping of init/nb_empty, empty-stream guard.",
+   text="Decides ONLY structural preconditions anchored in the property's mechanisms; the statement itself is an expectation over hash randomness and is NOT decided (no static argument in reach can bound it). " + "Preconditions: item -> (value, bin) from a generator seeded by the item hash, a bin keeps the smallest value with its hash under an order-insensitive guard, densification copies (value, hash) pairs from populated bins into empty bins only with generators keyed by position/size/pass/constants, bookkeeping of init/nb_empty, empty-stream guard, the u32 view a rehash of all bytes of each stored value with a literal seed.",
    technique="custom static analysis over rustc HIR (control dependence on occupancy flags, pairing, slicing, dominating-guard rule)",
    ref="DESIGN.md §4 C08 / §8"),
  "C15": dict(category="other",
@@ -88,7 +88,7 @@ CLAIMED.update({
    technique="unsafe inventory with ownership-transfer rule and call-whitelist classification of trait impls over rustc HIR",
    ref="DESIGN.md §4 C18"),
  "C20": dict(category="other",
-   text=STRUCT_TXT % "reload_json has no panic edge beyond unwraps discharged by a dominating is_err() return, every Result in it is propagated/tested/returned, the persisted form is a derived-serde JSON object (every field written, no custom (de)serialisation hook called by the derived code) read to EOF into Self and returned unchanged, the dump truncates, both sides use the same file name. Float round-trip exactness is not decided.",
+   text=STRUCT_TXT % "reload_json has no panic edge beyond unwraps discharged by a dominating is_err() return, every Result in it is propagated/tested/returned, the persisted form is a derived-serde JSON object (every field written, no custom (de)serialisation hook called by the derived code) read to EOF (the deserialiser is given the whole file: the opened reader unbounded, or a buffer filled to end of file and passed unsliced) into Self and returned unchanged, the dump truncates, both sides use the same file name. Float round-trip exactness is not decided.",
    technique="panic-edge inventory on rustc MIR with dominator-based discharge, error-flow rule and shape checks over HIR and item facts",
    ref="DESIGN.md §4 C20"),
 })
